@@ -27,6 +27,11 @@ CHECKS = {
          "All relative offsets of dest against src in [-(len+16), len+16] for the listed lengths and 11 positions of each auxiliary buffer inside/straddling the output and input regions are executed for 21 overlap-tolerant functions; result must equal F(inputs before the call).",
          "Trusted: TLC, spec/ref belt semantics, the arena harness. ECB (no overlap statement in its header), bash/brng/DER helpers not yet driven.",
          "DESIGN.md section 4, C11"),
+ "C13": ("exploration",
+         "TLA+ reference semantics of STB 34.101.60 over GF(2)[x] (spec/ref/Bels.tla: shares, CRT recovery, irreducibility, minimal polynomial) anchored by 84 TLC-evaluated vectors; TLC recomputes every recorded share / recovery of the real library (Trace_Bels) and checks recovered = secret for every subset of at least threshold shares in every order enumerated",
+         "len x count x threshold enumerated; for count <= 6 ALL subsets of size >= threshold and all orders of small subsets are recovered by the real code and recomputed by TLC from the definition; larger counts by seeded subsets; secrets and one-time keys seeded.",
+         "Trusted: TLC, the transcription of the standard (anchored by appendix B and the irreducibility of the 51 standard keys), the C driver (ASan build, exact-size buffers).",
+         "DESIGN.md section 4, C13"),
  "C14": ("other",
          "noninterference (2-safety) monitor spec/mon/CT.tla checked by TLC over program-counter traces recorded by a ptrace single-stepper on the optimised objects of the current tree; value equality of SAFE and FAST editions against the TLA+ arithmetic specification",
          "Every SAFE edition of the 33 SAFE/FAST pairs, the tag/hash/header verification entry points and the symmetric primitives are single-stepped for enumerated secret variants per public length; all PC traces of one public class must coincide (the irregular FAST(memEq) must be flagged: sensor self-test). Address independence is not part of the statement and not checked.",
